@@ -12,7 +12,7 @@
    defect D5 (IFM y start computed from padding.right).                                                *)
 EXTENDS Integers, Sequences, FiniteSets, TLC
 
-CONSTANTS MaxH, YPad
+CONSTANTS MaxH, YPad, EmitCases
 MAXBD == 3
 
 VARIABLES p, bd, done
@@ -79,6 +79,10 @@ Calc == ~done /\ bd' = CalcBlockDep(p) /\ done' = TRUE /\ UNCHANGED p
 Spec == Init /\ [][Calc]_vars
 
 BlockDepSafe == done => Safe(p, bd)
+(* S2C: every parameter point, extended by an independent horizontal stride sx, is printed (EmitCases) and realised by the
+   harness as a producer/consumer pair of real operations through the public generator; the emitted BLOCKDEP is then judged
+   by NpuExecTrace.  The design-level verdict above is about the transcription, this binds the same lattice to the code. *)
+Cases == (EmitCases /\ ~done) => PrintT(<<"CASE", p.H, p.pb, p.k, p.s, p.pt, p.pr, p.cb, p.idb, p.uh>>)
 (* non-vacuity witnesses: the transcription does return every value 0..3 somewhere *)
 NeverThree == ~(done /\ bd = 3)
 NeverZero == ~(done /\ bd = 0)
